@@ -2592,6 +2592,10 @@ func (c *compiler) VisitForRangeStmt(s *ast.ForRangeStmt) ast.VisitResult {
 
 	temp := c.NewAlloca(inTyp.IrType())
 	c.claimOrCopy(temp, in, inTyp, isTempIn)
+	// the temporaries left over from evaluating s.In are freed here, once,
+	// and not on every 'Fahre mit der Schleife fort'
+	c.freeTemporaries(c.scp, true)
+	c.scp.temporaries = nil
 	in, _ = c.scp.addTemporary(temp, inTyp)
 	c.scp.protectTemporary(in)
 
